@@ -518,6 +518,15 @@ func (t *wal) TruncateLog(lastSafeOffset int64) (int64, error) { //nolint:revive
 		return InvalidOffset, nil
 	}
 
+	if lastSafeOffset < t.firstOffset.Load() {
+		// Every entry that is still in the log (after trimming) is above
+		// the truncation point: nothing is left
+		if err := t.resetWithoutLock(t.currentSegment.Close()); err != nil {
+			return InvalidOffset, err
+		}
+		return t.LastOffset(), nil
+	}
+
 	if lastSafeOffset >= t.currentSegment.BaseOffset() {
 		// Truncation is only affecting the
 		if err := t.currentSegment.Truncate(lastSafeOffset); err != nil {
